@@ -62,6 +62,12 @@ def asSO3 (X : SE23 K) : SO3 K := ⟨X.q⟩
 def make (dbg : Bool) (t : V3 K) (q : Quat K) (v : V3 K) : Except Err (SE23 K) := do
   checkUnit dbg q.norm
   pure ⟨t, q, v⟩
+/-- `SE_2_3(Isometry3, v)`: `SE_2_3(h.translation(), Quaternion(h.rotation()), v)`; 16 row-major entries then `v` -/
+def ofIsometry (dbg : Bool) (h : List K) : Except Err (SE23 K) :=
+  let g (r c : Nat) : K := h.getD (4 * r + c) (nat 0)
+  make dbg ⟨g 0 3, g 1 3, g 2 3⟩
+    (Quat.ofRot ⟨g 0 0, g 0 1, g 0 2, g 1 0, g 1 1, g 1 2, g 2 0, g 2 1, g 2 2⟩)
+    ⟨h.getD 16 (nat 0), h.getD 17 (nat 0), h.getD 18 (nat 0)⟩
 end SE23
 
 namespace SE23T
